@@ -966,10 +966,10 @@ def boundary_cases():
 def gen_chain(r):
     """Long reference chains (not expression nesting): `let f0 = f1 + 1 ... let fN = x`,
     forward or backward, through virtual fields, conditions or locations; <= 300 lines."""
-    n = r.choice([20, 100, 200, 250, 280, 296])
     mode = r.choice(["let_fwd", "let_back", "loc", "cond"])
-    if mode == "let_back":
-        n = min(n, 120)     # bounds inference is quadratic in the chain length (120 links ≈ 7 s CPU)
+    # bounds inference is quadratic in the chain length (120 links ≈ 7 s CPU, 296 ≈ 45 s): keep
+    # chains that survive type_check short; forward chains >= ~270 fail fast in type_check
+    n = r.choice([20, 60, 100, 120, 280, 296]) if mode == "let_fwd" else r.choice([20, 60, 100, 120])
     L = ["struct Foo:", "  0 [+1]  UInt  x"]
     if mode == "let_fwd":
         L += ["  let f%d = f%d + 1" % (i, i + 1) for i in range(n)] + ["  let f%d = x" % n]
